@@ -1945,3 +1945,11 @@ V(id='c14-div-positive-by-zero-touching', prop='C14', file='mpmath/libmp/libmpi.
 V(id='c14-div-straddling-zero', prop='C14', file='mpmath/libmp/libmpi.py',
   old="    if tas < 0 and tbs > 0:\n        return fninf, finf\n    # Assume denominator to be nonnegative", new="    # Assume denominator to be nonnegative",
   expect='fire:C-R16:mpi_div')
+
+# ---- C39 N-R6 ----
+V(id='c39-nint-half-integer-rounds-down', prop='C39', file='mpmath/ctx_mp.py',
+  old="                n = (man >> 1) + 1\n                re_dist = 0", new="                n = (man >> 1)\n                re_dist = 1", expect='fire:N-R6:nint_distance')
+V(id='c39-nint-rational-distance-from-floor', prop='C39', file='mpmath/ctx_mp.py',
+  old="            d = bitcount(abs(p-n*q)) - bitcount(q)", new="            d = bitcount(r) - bitcount(q)", expect='fire:N-R6:nint_distance')
+V(id='c39-nint-small-magnitude-threshold', prop='C39', file='mpmath/ctx_mp.py',
+  old="        if mag < 0:\n            n = 0\n            re_dist = mag", new="        if mag < 1:\n            n = 0\n            re_dist = mag", expect='fire:N-R6:nint_distance')
